@@ -840,4 +840,234 @@ theorem replRules_keeps_imports (f : Repl) : ∀ (rs rs' : List Rule) (log : Lis
         | fontface _ => cases h1 : a.1 <;> simp_all [isImp, Rule.tag]
         | unknown _ => cases h1 : a.1 <;> simp_all [isImp, Rule.tag]
 
+/-! ### cascade order at every depth: the rules of the flattened sheet that are not @imports are the depth-first
+traversal `bodyRules` — a definition without file system, fetcher, insertion positions or hoisting -/
+
+def notImp (r : Rule) : Bool := !isImp r
+
+mutual
+/-- the rules a sheet stands for in cascade order, and whether an @import has to be kept -/
+def bodyRules : List Rule → Except Err (List Rule × Bool)
+  | [] => .ok ([], false)
+  | r :: rs =>
+    match bodyRule r with
+    | .error e => .error e
+    | .ok a =>
+      match bodyRules rs with
+      | .error e => .error e
+      | .ok b => .ok (a.1 ++ b.1, a.2 || b.2)
+def bodyRule : Rule → Except Err (List Rule × Bool)
+  | .charset _ => .ok ([], false)
+  | .ns .. => .error .unsupported
+  | .imp _ _ false _ _ => .ok ([], true)                       -- target not found: the @import stays
+  | .imp href media true _ sheet =>
+    match bodyRules sheet with
+    | .error e => .error e
+    | .ok i =>
+      match replRules (replacer href) i.1 with                 -- re-based against the @import's href
+      | .error e => .error e
+      | .ok rb =>
+        if media = mediaAll then .ok (.comment (startComment href) :: rb.1, i.2)
+        else if !i.2 && rb.1.all combinable then .ok ([.comment (startComment href), .media media rb.1], false)
+        else .ok ([.comment (startComment href)], true)        -- cannot be wrapped: the @import stays
+  | r => .ok ([r], false)
+end
+
+theorem replRule_notImp (f : Repl) (r r' : Rule) (lg : List Str) (h : replRule f r = .ok (r', lg)) :
+    isImp r' = isImp r := by
+  have ht := replRule_tag f r r' lg h
+  have e : ∀ x : Rule, isImp x = decide (x.tag = 2) := by intro x; cases x <;> simp [isImp, Rule.tag]
+  rw [e, e, ht]
+
+/-- re-basing commutes with leaving out the @import rules -/
+theorem replRules_filter (f : Repl) : ∀ (l l' : List Rule) (lg : List Str), replRules f l = .ok (l', lg) →
+    ∃ lg', replRules f (l.filter notImp) = .ok (l'.filter notImp, lg')
+  | [], l', lg, h => by simp [replRules] at h; rw [h.1]; exact ⟨[], rfl⟩
+  | r :: rs, l', lg, h => by
+    simp only [replRules] at h
+    split at h
+    · simp at h
+    · rename_i a ha
+      split at h
+      · simp at h
+      · rename_i b hb
+        simp at h
+        obtain ⟨rfl, _⟩ := h
+        obtain ⟨lg', ih⟩ := replRules_filter f rs b.1 b.2 hb
+        have hk := replRule_notImp f r a.1 a.2 ha
+        cases hr : isImp r with
+        | true =>
+          refine ⟨lg', ?_⟩
+          simp [List.filter_cons, notImp, hr, hk, ih]
+        | false =>
+          refine ⟨a.2 ++ lg', ?_⟩
+          simp [List.filter_cons, notImp, hr, hk, replRules, ha, ih]
+
+theorem replRules_anyImp (f : Repl) (l l' : List Rule) (lg : List Str) (h : replRules f l = .ok (l', lg)) :
+    l'.any isImp = l.any isImp := by
+  have ht := replRules_tags f l l' lg h
+  have key : ∀ m : List Rule, m.any isImp = (m.map Rule.tag).any (fun n => decide (n = 2)) := by
+    intro m
+    rw [List.any_map]
+    congr 1
+    funext x
+    cases x <;> simp [isImp, Rule.tag]
+  rw [key, key, ht]
+
+theorem keep1_isImp (vfs : Vfs) (who : Who) (th : Str) (r x : Rule) (h : (keep1 vfs who th r).val = .ok x) :
+    isImp x = isImp r ∧ (isImp r = false → x = r) := by
+  cases r with
+  | imp href media found a b =>
+    cases found with
+    | true => simp [keep1] at h; subst h; simp
+    | false =>
+      simp only [keep1] at h
+      have hx := setHref_isImp vfs who _ _ _ _ x h
+      exact ⟨by rw [hx]; rfl, by intro h0; simp [isImp] at h0⟩
+  | charset e => simp [keep1, appended] at h
+  | ns a b => simp [keep1, appended] at h
+  | comment a => simp [keep1, appended] at h; subst h; simp
+  | style a b => simp [keep1, appended] at h; subst h; simp
+  | media a b => simp [keep1, appended] at h; subst h; simp
+  | page a b c => simp [keep1, appended] at h; subst h; simp
+  | fontface a => simp [keep1, appended] at h; subst h; simp
+  | unknown a => simp [keep1, appended] at h; subst h; simp
+
+theorem keepAll_proj (vfs : Vfs) (who : Who) (th : Str) : ∀ (X m : List Rule),
+    (keepAll vfs who th X).val = .ok m → m.filter notImp = X.filter notImp ∧ m.any isImp = X.any isImp
+  | [], m, h => by simp [keepAll] at h; subst h; simp
+  | r :: rs, m, h => by
+    simp only [keepAll] at h
+    cases ha : (keep1 vfs who th r).val with
+    | error e => simp [ha] at h
+    | ok x =>
+      simp only [ha] at h
+      cases hb : (keepAll vfs who th rs).val with
+      | error e => simp [hb] at h
+      | ok xs =>
+        simp only [hb] at h
+        simp at h; subst h
+        obtain ⟨i1, i2⟩ := keepAll_proj vfs who th rs xs hb
+        obtain ⟨k1, k2⟩ := keep1_isImp vfs who th r x ha
+        cases hr : isImp r with
+        | true => simp [List.filter_cons, notImp, k1, hr, i1, i2]
+        | false => simp [List.filter_cons, notImp, k1, hr, i1, i2, k2 hr]
+
+theorem any_isImp_hoist (c : List Rule) : (hoist c).any isImp = c.any isImp := by
+  cases h : c.any isImp with
+  | true =>
+    obtain ⟨x, hx, hi⟩ := List.any_eq_true.mp h
+    exact List.any_eq_true.mpr ⟨x, (hoist_mem c x).mpr hx, hi⟩
+  | false =>
+    cases h2 : (hoist c).any isImp with
+    | false => rfl
+    | true =>
+      obtain ⟨x, hx, hi⟩ := List.any_eq_true.mp h2
+      have : c.any isImp = true := List.any_eq_true.mpr ⟨x, (hoist_mem c x).mp hx, hi⟩
+      simp [this] at h
+
+theorem filter_notImp_self (l : List Rule) (h : l.any isImp = false) : l.filter notImp = l := by
+  simp only [List.filter_eq_self, notImp]
+  intro r hr
+  cases hi : isImp r with
+  | false => rfl
+  | true => have : l.any isImp = true := List.any_eq_true.mpr ⟨r, hr, hi⟩; simp [this] at h
+
+theorem combinable_notImp (l : List Rule) (h : l.all combinable = true) : l.any isImp = false := by
+  cases h2 : l.any isImp with
+  | false => rfl
+  | true =>
+    obtain ⟨x, hx, hi⟩ := List.any_eq_true.mp h2
+    have := List.all_eq_true.mp h x hx
+    cases x <;> simp_all [isImp, combinable]
+
+mutual
+theorem cascRules_body (vfs : Vfs) (who : Who) : ∀ (rs : List Rule) (th : Str) (c : List Rule),
+    (cascRules vfs who th rs).val = .ok c → bodyRules rs = .ok (c.filter notImp, c.any isImp)
+  | [], th, c, h => by simp [cascRules] at h; subst h; simp [bodyRules]
+  | r :: rs, th, c, h => by
+    simp only [cascRules] at h
+    cases ha : (cascRule vfs who th r).val with
+    | error e => simp [ha] at h
+    | ok c1 =>
+      simp only [ha] at h
+      cases hb : (cascRules vfs who th rs).val with
+      | error e => simp [hb] at h
+      | ok c2 =>
+        simp only [hb] at h
+        simp at h; subst h
+        simp [bodyRules, cascRule_body vfs who r th c1 ha, cascRules_body vfs who rs th c2 hb]
+theorem cascRule_body (vfs : Vfs) (who : Who) : ∀ (r : Rule) (th : Str) (c : List Rule),
+    (cascRule vfs who th r).val = .ok c → bodyRule r = .ok (c.filter notImp, c.any isImp)
+  | .charset _, th, c, h => by simp [cascRule] at h; subst h; simp [bodyRule]
+  | .imp href media true ihref sheet, th, c, h => by
+    simp only [cascRule] at h
+    cases hi : (cascRules vfs who ihref sheet).val with
+    | error e => simp [hi] at h
+    | ok ci =>
+      have ih := cascRules_body vfs who sheet ihref ci hi
+      simp only [hi] at h
+      cases hre : replRules (replacer href) (hoist ci) with
+      | error e => simp [hre] at h
+      | ok rebased =>
+        simp only [hre] at h
+        obtain ⟨lg', hf⟩ := replRules_filter _ (hoist ci) rebased.1 rebased.2 hre
+        have hoth : (hoist ci).filter notImp = ci.filter notImp := hoist_others ci
+        rw [hoth] at hf
+        have hany : rebased.1.any isImp = ci.any isImp := by
+          rw [replRules_anyImp _ (hoist ci) rebased.1 rebased.2 hre, any_isImp_hoist]
+        simp only [bodyRule, ih, hf]
+        by_cases hma : media = mediaAll
+        · simp only [hma, ↓reduceIte] at h ⊢
+          cases hk : (keepAll vfs who th rebased.1).val with
+          | error e => simp [hk] at h
+          | ok m =>
+            simp only [hk] at h
+            simp at h; subst h
+            obtain ⟨p1, p2⟩ := keepAll_proj vfs who th rebased.1 m hk
+            simp [List.filter_cons, notImp, isImp, p2, hany]
+            exact p1.symm
+        · simp only [hma, ↓reduceIte] at h ⊢
+          by_cases hall : rebased.1.all combinable = true
+          · simp only [hall, ↓reduceIte] at h
+            simp at h; subst h
+            have hno := combinable_notImp rebased.1 hall
+            have hself := filter_notImp_self rebased.1 hno
+            rw [hany] at hno
+            simp [hno, hself, hall, List.filter_cons, notImp, isImp]
+          · have hall' : rebased.1.all combinable = false := by
+              cases hb : rebased.1.all combinable with
+              | true => exact absurd hb hall
+              | false => rfl
+            simp only [hall', Bool.false_eq_true, ↓reduceIte] at h
+            simp at h; subst h
+            cases hk : ci.any isImp with
+            | true => simp [List.filter_cons, notImp, isImp]
+            | false =>
+              have hself := filter_notImp_self rebased.1 (by rw [hany]; exact hk)
+              simp [hself, hall', List.filter_cons, notImp, isImp]
+  | .imp href media false ihref sheet, th, c, h => by
+    simp only [cascRule] at h
+    cases ha : (keep1 vfs who th (.imp href media false ihref sheet)).val with
+    | error e => simp [ha] at h
+    | ok x =>
+      simp only [ha] at h
+      simp at h; subst h
+      have hx : isImp x = true := by rw [(keep1_isImp vfs who th _ x ha).1]; rfl
+      simp [bodyRule, List.filter_cons, notImp, hx]
+  | .comment a, th, c, h => by
+    simp [cascRule, keep1, appended] at h; subst h; simp [bodyRule, List.filter_cons, notImp, isImp]
+  | .ns a b, th, c, h => by simp [cascRule, keep1, appended] at h
+  | .style a b, th, c, h => by
+    simp [cascRule, keep1, appended] at h; subst h; simp [bodyRule, List.filter_cons, notImp, isImp]
+  | .media a b, th, c, h => by
+    simp [cascRule, keep1, appended] at h; subst h; simp [bodyRule, List.filter_cons, notImp, isImp]
+  | .page a b d, th, c, h => by
+    simp [cascRule, keep1, appended] at h; subst h; simp [bodyRule, List.filter_cons, notImp, isImp]
+  | .fontface a, th, c, h => by
+    simp [cascRule, keep1, appended] at h; subst h; simp [bodyRule, List.filter_cons, notImp, isImp]
+  | .unknown a, th, c, h => by
+    simp [cascRule, keep1, appended] at h; subst h; simp [bodyRule, List.filter_cons, notImp, isImp]
+end
+
 end CssVerif.Urls
